@@ -1542,6 +1542,10 @@ class InBodyPhase(Phase):
             furthestBlock.appendChild(clone)
 
             # Step 14
+            if bookmark > self.tree.activeFormattingElements.index(formattingElement):
+                # The bookmark was noted while formattingElement was still
+                # in the list
+                bookmark -= 1
             self.tree.activeFormattingElements.remove(formattingElement)
             self.tree.activeFormattingElements.insert(bookmark, clone)
 
